@@ -1345,6 +1345,13 @@ theorem obj_step_refines_sim (ver : Nat) (s : Obj.OS) (hw : Obj.WF s) (op : Op) 
     Obj.WF (Obj.process ver s op arg) ∧ Obj.proj (Obj.process ver s op arg) pe = process ver (Obj.proj s pe) op arg :=
   Obj.proj_process ver s hw op arg pe
 
+/-- the observation the whole design rests on (DESIGN §1), as a theorem about the object model: no opcode ever changes
+the variant of an existing cell — in-place mutation (APPEND(S), SETITEM(S), ADDITEMS, BUILD) changes what a cell holds,
+never what it is — and no cell is ever removed.  That is why a simulated state of slot *kinds* loses nothing. -/
+theorem obj_kind_stable (ver : Nat) (s : Obj.OS) (hw : Obj.WF s) (op : Op) (arg : Arg) (c : Nat) (hc : c < s.cells.length) :
+    Obj.kindOf (Obj.process ver s op arg) c = Obj.kindOf s c ∧ s.cells.length ≤ (Obj.process ver s op arg).cells.length :=
+  Obj.kind_stable ver s hw op arg c hc
+
 /-- non-vacuity: `EMPTY_LIST DUP APPEND` really makes the list its own child in the object model (the leak of
 the pre-repair tree), `EMPTY_LIST DUP TUPLE1 APPEND POP` an unreachable two-cell ring; both are emptied by release -/
 example : Obj.kidsOf (Obj.run 2 [⟨.emptyList, .none⟩, ⟨.dup, .none⟩, ⟨.append, .none⟩]) 0 = [0] := by decide
